@@ -43,7 +43,7 @@
    Not theorems (tie + oracle): for MPEG-TS that PAT / PMT open each segment (written by mediacommon's
    writer, outside the model); that the served bytes decode to the model's samples / units. *)
 From Coq Require Import List ZArith Bool.
-From GoHls Require Import Model.Mux Proofs.MuxStream Proofs.MuxLift Proofs.MuxWindow Proofs.MuxHistory Proofs.MuxSamples Proofs.MuxCut Proofs.MuxLog Proofs.MuxLogStep Proofs.MuxGroups Proofs.MuxRAStart Proofs.MuxRAHist Proofs.MuxLogTS Proofs.MuxTSStart Proofs.MuxTimes Proofs.MuxInit Proofs.MuxInitHist.
+From GoHls Require Import Model.Mux Proofs.MuxStream Proofs.MuxLift Proofs.MuxWindow Proofs.MuxHistory Proofs.MuxSamples Proofs.MuxCut Proofs.MuxLog Proofs.MuxLogStep Proofs.MuxGroups Proofs.MuxRAStart Proofs.MuxRAHist Proofs.MuxLogTS Proofs.MuxTSStart Proofs.MuxTimes Proofs.MuxInit Proofs.MuxInitHist Proofs.MuxAuditAdds.
 Import ListNotations.
 Local Open Scope Z_scope.
 
@@ -216,3 +216,11 @@ Theorem c02_init_exists_once_published : forall c m0 ops si s,
   nth_error (m_streams (mux_run m0 ops)) si = Some s -> published s <> [] -> st_init s <> None.
 Proof. exact init_exists_once_published. Qed.
 Print Assumptions c02_init_exists_once_published.
+
+(* ---- never at another unit: a write of a non-leading fMP4 / Low-Latency track cuts no stream ---- *)
+Theorem c02_fmp4_nonleading_never_cuts : forall m ti t ra pc smp0,
+  nth_error (m_tracks m) ti = Some t -> tk_leading t = false ->
+  forall j sj, nth_error (m_streams m) j = Some sj ->
+  exists sj', nth_error (m_streams (fst (fmp4WriteSample m ti ra pc smp0))) j = Some sj' /\ Same sj sj'.
+Proof. exact fmp4_nonleading_never_cuts. Qed.
+Print Assumptions c02_fmp4_nonleading_never_cuts.
